@@ -5,6 +5,7 @@ import (
 	"encoding/hex"
 	"encoding/json"
 	"fmt"
+	"math"
 	"math/big"
 
 	"github.com/ethereum/go-ethereum/common"
@@ -54,6 +55,12 @@ func (m ClientState) GetLatestHeight() exported.Height {
 }
 
 func (m ClientState) Validate() error {
+	if m.Epoch == 0 {
+		return sdkerrors.Wrap(ErrInvalidGenesisBlock, "epoch cannot be zero")
+	}
+	if m.ChainId > math.MaxInt64 {
+		return sdkerrors.Wrap(ErrInvalidGenesisBlock, "chain id must fit into an int64")
+	}
 	return m.Header.ValidateBasic()
 }
 
